@@ -43,6 +43,7 @@ type Opts struct {
 	TwoNodes        bool // also create the independent validating chain B
 	MaxEvidenceAge  uint64
 	Operators       map[int]common.Address // operator of genesis validator i (default: its own address)
+	Version         params.YouVersion      // protocol version of the genesis block (default YouV5)
 }
 
 // Node is one chain with its staking module.
@@ -71,33 +72,43 @@ func Scale(o Opts) params.YouParams {
 	}
 	params.InitNetworkId(params.NetworkIdForTestCase)
 	params.StakeUint.SetInt64(StakeUnit)
-	v5 := params.Versions[params.YouV5]
-	v5.StakingTrieFrequency = Period
-	v5.WithdrawDelay = WithdrawDelay
-	v5.WithdrawRecordRetention = 4
-	v5.StakeLookBack = StakeLookBack
-	v5.MinStakes = map[params.ValidatorRole]uint64{1: 1, 2: 1, 3: 1}
-	v5.MinSelfStakes = map[params.ValidatorRole]uint64{1: 1, 2: 1, 3: 0}
-	v5.MaxStakes = map[params.ValidatorRole]uint64{1: 100000, 2: 100000, 3: 100000}
-	v5.SubsidyThreshold = 1000
-	v5.MinDelegationTokens = big.NewInt(StakeUnit)
-	v5.MaxDelegationForValidator = 3
-	v5.MaxDelegationForDelegator = 2
-	v5.InactivityPenaltyWaitRounds = 100000 // inactivity slashing is not the subject of these checks
-	v5.ExpelledRoundForDoubleSign = 8
-	v5.ExpelledRoundForInactive = 4
-	if o.PenaltyFraction > 0 {
-		v5.PenaltyFractionForDoubleSign = o.PenaltyFraction
-	} else {
-		v5.PenaltyFractionForDoubleSign = 2
+	// the same scaled table for every protocol version (what differs between versions is the code path taken, not
+	// the magnitudes); master signatures are switched off for all roles so that the fixture's own staking
+	// transactions work under YouV1..YouV4 as well
+	var out params.YouParams
+	for ver := range params.Versions {
+		v5 := params.Versions[ver]
+		v5.StakingTrieFrequency = Period
+		v5.WithdrawDelay = WithdrawDelay
+		v5.WithdrawRecordRetention = 4
+		v5.StakeLookBack = StakeLookBack
+		v5.MinStakes = map[params.ValidatorRole]uint64{1: 1, 2: 1, 3: 1}
+		v5.MinSelfStakes = map[params.ValidatorRole]uint64{1: 1, 2: 1, 3: 0}
+		v5.MaxStakes = map[params.ValidatorRole]uint64{1: 100000, 2: 100000, 3: 100000}
+		v5.SubsidyThreshold = 1000
+		v5.MinDelegationTokens = big.NewInt(StakeUnit)
+		v5.MaxDelegationForValidator = 3
+		v5.MaxDelegationForDelegator = 2
+		v5.InactivityPenaltyWaitRounds = 100000 // inactivity slashing is not the subject of these checks
+		v5.ExpelledRoundForDoubleSign = 8
+		v5.ExpelledRoundForInactive = 4
+		if o.PenaltyFraction > 0 {
+			v5.PenaltyFractionForDoubleSign = o.PenaltyFraction
+		} else {
+			v5.PenaltyFractionForDoubleSign = 2
+		}
+		if o.MaxEvidenceAge > 0 {
+			v5.MaxEvidenceExpiredIn = o.MaxEvidenceAge
+		} else {
+			v5.MaxEvidenceExpiredIn = 3
+		}
+		v5.SignatureRequired = map[params.ValidatorRole]bool{1: false, 2: false, 3: false}
+		params.Versions[ver] = v5
+		if ver == params.YouV5 {
+			out = v5
+		}
 	}
-	if o.MaxEvidenceAge > 0 {
-		v5.MaxEvidenceExpiredIn = o.MaxEvidenceAge
-	} else {
-		v5.MaxEvidenceExpiredIn = 3
-	}
-	params.Versions[params.YouV5] = v5
-	return v5
+	return out
 }
 
 func newNode(g *core.Genesis) (*Node, error) {
@@ -160,7 +171,10 @@ func NewWorld(o Opts) (*World, error) {
 			alloc[k.Addr] = core.GenesisAccount{Balance: big.NewInt(1000000)}
 		}
 	}
-	g := &core.Genesis{NetworkId: params.NetworkIdForTestCase, GasLimit: GenesisGas, Alloc: alloc, Validators: vals, CurrVersion: params.YouV5}
+	if o.Version == 0 {
+		o.Version = params.YouV5
+	}
+	g := &core.Genesis{NetworkId: params.NetworkIdForTestCase, GasLimit: GenesisGas, Alloc: alloc, Validators: vals, CurrVersion: o.Version}
 	var err error
 	if w.A, err = newNode(g); err != nil {
 		return nil, err
